@@ -533,7 +533,7 @@ func mutate(rt *rapid.T, root *eip712ref.JNode, step int) string {
 		case 10:
 			if s.parent.Kind == 'o' {
 				k := s.parent.Keys[s.idx]
-				s.parent.Keys[s.idx] = rapid.SampledFrom([]string{strings.ToUpper(k), strings.Title(k), k + " ", "", k + k}).Draw(rt, L("rekey"))
+				s.parent.Keys[s.idx] = rapid.SampledFrom([]string{strings.ToUpper(k), strings.ToUpper(k[:min(1, len(k))]) + k[min(1, len(k)):], k + " ", "", k + k}).Draw(rt, L("rekey"))
 				return "pos:rename-key@" + region
 			}
 			s.parent.Vals = append(s.parent.Vals[:s.idx:s.idx], s.parent.Vals[s.idx+1:]...)
